@@ -379,7 +379,7 @@ def run(chk):
                 if l.strip() and not l.startswith('#'):
                     vcases.append('k%d vmslot %s' % (len(vcases), l.strip()))
         for i in range(10000 if thorough else 300):
-            font = rng.choice(('Padauk.ttf', 'charis_r_gr.ttf', 'Scheherazadegr.ttf', 'Annapurnarc2.ttf'))
+            font = rng.choice(('Padauk.ttf', 'charis_r_gr.ttf', 'Scheherazadegr.ttf', 'Annapurnarc2.ttf', 'small.ttf', 'general.ttf'))      # the last two declare no / few user attributes
             rep = S.repertoire(vlib.REPO, font)
             k = rng.randrange(1, 9)
             cps = [rng.choice(rep) for _ in range(k)]
